@@ -52,9 +52,8 @@ def symbolOf (z : Nat) : Option String :=
 
 def f0Lookup (smbl : String) : Option PtGen.F0Row := PtGen.f0Rows.find? fun r => r.sym = smbl
 
-def rowCoeffs (r : PtGen.F0Row) : List (Float × Float) × Float :=
-  let s : Float := (PtGen.f0Scale : Float)
-  ((r.a.zip r.b).map fun (a, b) => ((a : Float) / s, (b : Float) / s), (r.c : Float) / s)
+def rowCoeffsF (r : PtGen.F0Row) : List (Float × Float) × Float :=
+  rowCoeffs PtGen.f0Scale r.a r.b r.c
 
 def optF (s : String) : Option (Option Float) :=
   if s = "none" then some none else (readF s).map some
@@ -65,10 +64,8 @@ def showErr : Err → String
   | .noEnergy => "ERR noEnergy"
 
 /-- `formula(compound, natural_density=nd).density` for a compound without ions -/
-def densityOfNatural (st : St) (atoms : List (Atom × Float)) (nd : Float) : Float :=
-  let nat := massOf (fun a => st.massFn a.z 0) atoms
-  let iso := massOf st.am atoms
-  nd / (nat / iso)
+def densityOfNaturalF (st : St) (atoms : List (Atom × Float)) (nd : Float) : Float :=
+  densityOfNatural st.am (fun a => st.massFn a.z 0) atoms nd
 
 def handle (st : St) : Toks → IO St
   | ["row", z, ev, f1, f2] =>
@@ -120,7 +117,7 @@ def handle (st : St) : Toks → IO St
     match optF d, readF v >>= energyOf kind, readItems rest with
     | some d, some e, some (s, []) =>
       let atoms := s.atoms
-      let dens := if dk = "n" then d.map (densityOfNatural st atoms) else d
+      let dens := if dk = "n" then d.map (densityOfNaturalF st atoms) else d
       match xraySld st.am (st.sf e) atoms dens with
       | .ok (r, i) => reply s!"ok {showO r} {showO i}"
       | .error err => reply (showErr err)
@@ -167,7 +164,7 @@ def handle (st : St) : Toks → IO St
       | some sym =>
         match f0Lookup (String.ofList (resolveSymbol sym.toList (some q))) with
         | none => reply "ERR KeyError"
-        | some r => let (ab, c) := rowCoeffs r; reply ("ok " ++ showO (f0 ab c qq))
+        | some r => let (ab, c) := rowCoeffsF r; reply ("ok " ++ showO (f0 ab c qq))
     | _, _, _ => reply "ERR bad-op"
     pure st
   | ["f0sym", sym, q, stol] => do
@@ -177,7 +174,7 @@ def handle (st : St) : Toks → IO St
       let smbl := String.ofList (resolveSymbol sym.toList qo)
       match f0Lookup smbl with
       | none => reply s!"ERR KeyError {smbl}"
-      | some r => let (ab, c) := rowCoeffs r; reply ("ok " ++ showO (atstol ab c stol))
+      | some r => let (ab, c) := rowCoeffsF r; reply ("ok " ++ showO (atstol ab c stol))
     | _, _ => reply "ERR bad-op"
     pure st
   | _ => do reply "ERR bad-op"; pure st
